@@ -5,6 +5,10 @@
 (* and which files an invocation rewrites.  Between invocations the sources  *)
 (* of a package may be edited (version 1 <-> 2).                             *)
 (*   Class[p]: "good" | "partial" (some declarations fail) | "allbad"        *)
+(*           | "late-bad" (version 2 fails) | "unloadable" (the pattern      *)
+(*             names a directory that does not exist, or one whose files are  *)
+(*             all excluded by build constraints: the Go toolchain reports    *)
+(*             an error for it and there is nothing to translate)             *)
 EXTENDS Integers, Sequences, FiniteSets, TLC, Json
 
 CONSTANTS Pkgs, Class, PatternLists, D
@@ -14,7 +18,7 @@ VARIABLES tree,     \* package -> "absent" | [v, kind]   (the file at the packag
           last, hist
 
 vars == <<tree, ver, last, hist>>
-Bad(p, v) == Class[p] \in {"partial", "allbad"} \/ (Class[p] = "late-bad" /\ v[p] = 2)
+Bad(p, v) == Class[p] \in {"partial", "allbad", "unloadable"} \/ (Class[p] = "late-bad" /\ v[p] = 2)
 Absent == [v |-> 0, kind |-> "absent"]
 
 Init == /\ tree = [p \in Pkgs |-> Absent]
@@ -32,7 +36,7 @@ Invoke(pats, ign, relOut, subDir, emptyWild) ==
   LET matched == SeqSet(pats)
       someErr == \E p \in matched : Bad(p, ver)
       newTree == [q \in Pkgs |->
-                    IF q \in matched /\ (~Bad(q, ver) \/ ign)
+                    IF q \in matched /\ Class[q] # "unloadable" /\ (~Bad(q, ver) \/ ign)
                     THEN [v |-> ver[q], kind |-> IF Bad(q, ver) THEN "partial" ELSE "full"]
                     ELSE tree[q]]
       e == [op |-> "invoke", pats |-> pats, ign |-> ign, relOut |-> relOut, subDir |-> subDir, emptyWild |-> emptyWild,
